@@ -22,6 +22,7 @@ from contracts.graphmodel import (g_nodes, g_attr, g_attrs, g_edges, g_eattrs, g
                                   same_val, build_graph, handle, World)
 from fim.graph.networkx_property_graph import NetworkXPropertyGraph, NetworkXGraphImporter
 from fim.graph.resources.networkx_arm import NetworkXARMGraph
+from fim.graph.resources.abc_adm import ABCADMPropertyGraph
 from fim.graph.resources.networkx_adm import NetworkXADMGraph
 from fim.slivers.delegations import DelegationType
 
@@ -88,6 +89,9 @@ def gen_arm(g):
     delegate('sp1', 6, ['none', 'capacity only'])
     if with_w2:
         delegate('g2', 10, ['none', 'label only'])
+    if with_stitch:
+        # a stitching element may itself be delegated (it is still part of every partition, with its own entries only)
+        delegate('fp', 11, ['none', 'label only'])
     edges = [(a, b, {'Class': r}) for a, b, r in EDGES if a in present and b in present]
     G = build_graph(nodes, edges)
     w.store = PObj(gm.SHARED, dict(graphs=G, start_id=20, log=None, lock=LockVal()))
@@ -349,6 +353,84 @@ def _by_shape(shape):
     return G
 
 
-CONTRACTS = [_by_shape(s) for s in ('one worker', 'two workers', 'two workers and a stitch node')] + [RewriteDelegations]
+class PartitionRekeyPartitionAgain(Contract):
+    """history: partition the aggregate model, re-key every partition's delegations to its graph id (as the broker does), then
+    partition the SAME aggregate model again in the same process: the second result has the same partitions with the same
+    content as the first had before re-keying, and the aggregate model is still untouched"""
+    target = 'fim.graph.resources.abc_arm:ABCARMPropertyGraph.generate_adms'
+    extra_targets = ('fim.graph.resources.abc_adm:ABCADMPropertyGraph.rewrite_delegations',
+                     'fim.slivers.delegations:Delegations.from_json')
+    props = ('C13',)
+    bounded = 'one worker with its card, service and port (4 elements); capacity / label delegations on the worker and the port to two ids'
+    max_paths = 20000
+    cost = 60
+    crosscheck_result_only = True
+
+    @staticmethod
+    def canon(res):
+        return None
+
+    def inputs(self, g):
+        g.forced_shape = 'one worker'
+        w = gen_arm(g)
+        return [w.arm, w.dA, w.dB], {}
+
+    @staticmethod
+    def _content(adms):
+        """{delegation id: {NodeID: {delegation property: ids}}} of a result of generate_adms"""
+        out = []
+        items_ = [(k, adms.e[k][1]) for k in adms.e] if isinstance(adms, PDict) else list(adms.items())
+        for k, adm in items_:
+            Ga, agid = store_graph_of(adm), fldv(adm, 'graph_id')
+            part = by_nodeid(Ga, agid)
+            out.append((k, {nid: {p: deleg_ids(g_attr(Ga, n, p)) for p in (CAP, LAB) if p in a_keys(g_attrs(Ga, n))} for nid, n in part.items()}))
+        return out
+
+    def body(self, h, arm, dA, dB):
+        import copy
+        G0 = snapshot(store_graph_of(arm)) if h.mode == 'sym' else copy.deepcopy(store_graph_of(arm))
+        gen = NetworkXARMGraph.generate_adms
+        first = h.call(gen, arm)
+        c1 = self._content(first)
+        for k, adm in ([(k, first.e[k][1]) for k in first.e] if isinstance(first, PDict) else list(first.items())):
+            # (the partitions come back as plain property-graph handles; the ADM method only needs the graph interface)
+            h.call(ABCADMPropertyGraph.rewrite_delegations, adm)
+        second = h.call(gen, arm)
+        return (G0, c1, self._content(second))
+
+    @staticmethod
+    def _same(pre, post):
+        if not returned(post):
+            return False
+        G0, c1, c2 = post.result
+        if len(c1) != len(c2):
+            return False
+        out = []
+        for k, part in c1:
+            alts = []
+            for k2, part2 in c2:
+                if set(part) != set(part2):
+                    alts.append(False)
+                    continue
+                conds = [eq(k, k2)]
+                for nid in part:
+                    if set(part[nid]) != set(part2[nid]):
+                        conds.append(False)
+                        continue
+                    for p in part[nid]:
+                        a, b = part[nid][p], part2[nid][p]
+                        conds.append(len(a) == len(b) and And(*[eq(x, y) for x, y in zip(a, b)]))
+                alts.append(And(*conds))
+            out.append(Or(*alts))
+        arm = post.args[0]
+        gid = fldv(arm, 'graph_id')
+        out.append(gm.graph_same(G0, store_graph_of(arm), keep=lambda n: n in set(members(G0, gid))))
+        return And(*out)
+
+    ensures = {'adm.second_partitioning_equals_the_first': lambda pre, post: PartitionRekeyPartitionAgain._same(pre, post)}
+
+
+CONTRACTS = [_by_shape(s) for s in ('one worker', 'two workers', 'two workers and a stitch node')] + [RewriteDelegations,
+                                                                                                       PartitionRekeyPartitionAgain]
 for _c in CONTRACTS:
     globals()[_c.__name__] = _c
